@@ -110,7 +110,10 @@ fn res_panic() -> Value {
     json!({"k": "panic"})
 }
 
-fn grid_res<T: CellT, R: TooDeeOps<T>>(r: &R) -> Value {
+macro_rules! def_grid_res {
+    ($name:ident, [$($gen:tt)*], $R:ty) => {
+        #[allow(clippy::needless_lifetimes)]
+        fn $name<$($gen)* T: CellT>(r: &$R) -> Value {
     let (nc, nr) = r.size();
     let mut v = Vec::new();
     let mut notes = serde_json::Map::new();
@@ -140,6 +143,15 @@ fn grid_res<T: CellT, R: TooDeeOps<T>>(r: &R) -> Value {
     }
     out
 }
+    };
+}
+def_grid_res!(grid_res_any, [R: TooDeeOps<T>,], R);
+def_grid_res!(grid_res_owned, [], TooDee<T>);
+def_grid_res!(grid_res_view, ['v,], TooDeeView<'v, T>);
+def_grid_res!(grid_res_vm, ['v,], TooDeeViewMut<'v, T>);
+fn grid_res<T: CellT, R: TooDeeOps<T>>(r: &R) -> Value {
+    grid_res_any::<R, T>(r)
+}
 
 fn some_at<T: CellT>(cx: &Ctx, p: &T, c: usize, r: usize) -> Value {
     let addr = p as *const T as usize;
@@ -150,8 +162,14 @@ fn some_at<T: CellT>(cx: &Ctx, p: &T, c: usize, r: usize) -> Value {
     }
 }
 
-/// Calls available on every receiver.
-fn read_call<T: CellT, R: TooDeeOps<T>>(cx: &Ctx, recv: &R, op: &str, _a: &Value, conc: &[usize]) -> Option<Value> {
+/// Calls available on every receiver.  The SAME source text is compiled once per concrete receiver type (and once
+/// generically, for third-party implementors): written with method-call syntax on a concrete `TooDee`, `TooDeeView` or
+/// `TooDeeViewMut`, a call resolves the way it does in user code - to an inherent method if the type has one of that
+/// name, to the trait method otherwise.  A generic `R: TooDeeOps<T>` would always pick the trait method.
+macro_rules! def_read_call {
+    ($name:ident, [$($gen:tt)*], $R:ty, $grid:ident) => {
+        #[allow(clippy::needless_lifetimes)]
+        fn $name<$($gen)* T: CellT>(cx: &Ctx, recv: &$R, op: &str, _a: &Value, conc: &[usize]) -> Option<Value> {
     Some(match op {
         "idx_coord" => some_at(cx, &recv[(conc[0], conc[1])], conc[0], conc[1]),
         "idx_row" => {
@@ -178,17 +196,26 @@ fn read_call<T: CellT, R: TooDeeOps<T>>(cx: &Ctx, recv: &R, op: &str, _a: &Value
             let v: Vec<u32> = recv.col(conc[0]).map(|e| e.origin()).collect();
             json!({"k": "ids", "v": v})
         }
-        "size" => grid_res::<T, R>(recv),
+        "size" => $grid(recv),
         "view" => {
             let v = recv.view((conc[0], conc[1]), (conc[2], conc[3]));
-            grid_res::<T, _>(&v)
+            grid_res_view(&v)
         }
         _ => return None,
     })
 }
+    };
+}
+def_read_call!(read_call, [R: TooDeeOps<T>,], R, grid_res);
+def_read_call!(read_call_owned, [], TooDee<T>, grid_res_owned);
+def_read_call!(read_call_view, ['v,], TooDeeView<'v, T>, grid_res_view);
+def_read_call!(read_call_vm, ['v,], TooDeeViewMut<'v, T>, grid_res_vm);
 
-/// Calls that need a mutable receiver.
-fn mut_call<T: CellT, R: TooDeeOpsMut<T> + CopyOps<T>>(cx: &Ctx, recv: &mut R, op: &str, a: &Value, conc: &[usize]) -> Option<Value> {
+/// Calls that need a mutable receiver (one compiled copy per concrete receiver type, see `def_read_call`).
+macro_rules! def_mut_call {
+    ($name:ident, [$($gen:tt)*], $R:ty) => {
+        #[allow(clippy::needless_lifetimes)]
+        fn $name<$($gen)* T: CellT>(cx: &Ctx, recv: &mut $R, op: &str, a: &Value, conc: &[usize]) -> Option<Value> {
     let val = |k: &str| -> u32 { get_u64(a, k) as u32 };
     Some(match op {
         "idxm_coord" => {
@@ -230,7 +257,7 @@ fn mut_call<T: CellT, R: TooDeeOpsMut<T> + CopyOps<T>>(cx: &Ctx, recv: &mut R, o
         }
         "view_mut" => {
             let mut v = recv.view_mut((conc[0], conc[1]), (conc[2], conc[3]));
-            let g = grid_res::<T, _>(&v);
+            let g = grid_res_vm(&v);
             let (nc, nr) = v.size();
             if (nc == 0) == (nr == 0) {
                 let base = val("v");
@@ -390,6 +417,11 @@ fn mut_call<T: CellT, R: TooDeeOpsMut<T> + CopyOps<T>>(cx: &Ctx, recv: &mut R, o
         _ => return None,
     })
 }
+    };
+}
+def_mut_call!(mut_call, [R: TooDeeOpsMut<T> + CopyOps<T>,], R);
+def_mut_call!(mut_call_owned, [], TooDee<T>);
+def_mut_call!(mut_call_vm, ['v,], TooDeeViewMut<'v, T>);
 
 pub enum Leaf<'a, T> {
     Owned(&'a mut TooDee<T>),
@@ -438,18 +470,18 @@ impl<'a, T: CellT> Leaf<'a, T> {
             };
         }
         let r = match self {
-            Leaf::Owned(t) => read_call::<T, _>(cx, &**t, op, a, conc),
-            Leaf::Plain(t) => read_call::<T, _>(cx, &**t, op, a, conc),
-            Leaf::VM(t) => read_call::<T, _>(cx, &*t, op, a, conc),
-            Leaf::V(t) => read_call::<T, _>(cx, &*t, op, a, conc),
+            Leaf::Owned(t) => read_call_owned::<T>(cx, &**t, op, a, conc),
+            Leaf::Plain(t) => read_call::<_, T>(cx, &**t, op, a, conc),
+            Leaf::VM(t) => read_call_vm::<T>(cx, &*t, op, a, conc),
+            Leaf::V(t) => read_call_view::<T>(cx, &*t, op, a, conc),
         };
         if r.is_some() {
             return r;
         }
         match self {
-            Leaf::Owned(t) => mut_call::<T, _>(cx, &mut **t, op, a, conc),
-            Leaf::Plain(t) => mut_call::<T, _>(cx, &mut **t, op, a, conc),
-            Leaf::VM(t) => mut_call::<T, _>(cx, t, op, a, conc),
+            Leaf::Owned(t) => mut_call_owned::<T>(cx, &mut **t, op, a, conc),
+            Leaf::Plain(t) => mut_call::<_, T>(cx, &mut **t, op, a, conc),
+            Leaf::VM(t) => mut_call_vm::<T>(cx, t, op, a, conc),
             Leaf::V(_) => None,
         }
     }
@@ -498,6 +530,16 @@ pub fn descend_vm<'a, T: CellT>(mut v: TooDeeViewMut<'a, T>, stack: &[Win], f: &
                 descend_v(v2, rest, f)
             }
         }
+    }
+}
+
+/// (the concrete form for `TooDee`: method-call syntax on the concrete type, as in user code)
+pub fn descend_toodee<T: CellT>(t: &mut TooDee<T>, stack: &[Win], f: &mut dyn FnMut(Leaf<'_, T>)) {
+    let (w, rest) = stack.split_first().expect("non-empty stack");
+    if w.m {
+        descend_vm(t.view_mut(w.s, w.e), rest, f)
+    } else {
+        descend_v(t.view(w.s, w.e), rest, f)
     }
 }
 
@@ -753,7 +795,7 @@ pub fn run_case<T: CellT>(case: &Value, log: &mut Vec<Value>) -> Outcome {
 
     let built = guarded(|| match &mut rootobj {
         RootObj::Owned(t) => {
-            if stack.is_empty() { body(Leaf::Owned(t)) } else { descend_owned::<T, _>(t, &stack, &mut body) }
+            if stack.is_empty() { body(Leaf::Owned(t)) } else { descend_toodee::<T>(t, &stack, &mut body) }
         }
         RootObj::Plain(t) => {
             if stack.is_empty() { body(Leaf::Plain(t)) } else { descend_owned::<T, _>(t, &stack, &mut body) }
